@@ -42,6 +42,7 @@ class VerifyMixin:
         self.cur_root = c.target.replace('s3transfer.', '').replace(':', '.') if not c.target.startswith('s3transfer:') else c.target.replace('s3transfer:', 'legacy.')
         self.cur_props = c.props
         self.cur_root_target_inline = c.target
+        self.cur_inline_callees = c.inline_callees
         n0 = len(self.obligations)
         st = State()
         self_val = None
@@ -101,6 +102,8 @@ class VerifyMixin:
             terminals.append((o, s1))
         self.paths += len(terminals)
         n_normal = 0
+        for pi, (o, s1) in enumerate(terminals):
+            self.oblige(s1, f'vacuity.path_feasible.{pi}', True, kind='cover', expect='sat')
         for o, s1 in terminals:
             old = s1.ghost.get('old_snapshot') if c.old_at == 'acquire' else None
             if old is None and c.old_at == 'acquire' and self_val is not None and isinstance(self_val, Ref):
@@ -149,6 +152,7 @@ class VerifyMixin:
             tmp = State()
             self.oblige(tmp, f'vacuity.twin_must_fail.{nm}', z3.Or(disj), kind='twin', expect='sat')
         self.cur_root_target_inline = None
+        self.cur_inline_callees = ()
         return {'function': c.target, 'paths': len(terminals), 'normal_paths': n_normal,
                 'obligations': len(self.obligations) - n0, 'lines': (finfo.lineno, finfo.end_lineno),
                 'module_sha256': finfo.module.sha256}
